@@ -163,7 +163,8 @@ extern "C" int LLVMFuzzerTestOneInput(const uint8_t* data, size_t size) {
             DOMLSParserImpl* p = gLs; DOMConfiguration* c = p->getDomConfig();
             c->setParameter(XMLUni::fgXercesScannerName, (const void*)sc);
             c->setParameter(XMLUni::fgDOMNamespaces, ns); c->setParameter(XMLUni::fgXercesSchema, schema); c->setParameter(XMLUni::fgXercesSchemaFullChecking, full);
-            c->setParameter(XMLUni::fgDOMValidate, val == 1); c->setParameter(XMLUni::fgDOMValidateIfSchema, val == 2);
+            c->setParameter(XMLUni::fgDOMValidate, false);
+            if (val == 1) c->setParameter(XMLUni::fgDOMValidate, true); else if (val == 2) c->setParameter(XMLUni::fgDOMValidateIfSchema, true);
             c->setParameter(XMLUni::fgXercesContinueAfterFatalError, cont); c->setParameter(XMLUni::fgXercesLoadExternalDTD, extdtd);
             c->setParameter(XMLUni::fgDOMEntities, eref); c->setParameter(XMLUni::fgXercesSecurityManager, (const void*)gSec);
             c->setParameter(XMLUni::fgXercesDoXInclude, xinc);
